@@ -58,6 +58,13 @@ class Q:
         return verdict, model
 
 
+def alt_dir():
+    """scratch evidence / replay directory for runs against a tree other than /repo (one per tree, so concurrent runs do not collide)"""
+    import hashlib
+    tree = os.path.abspath(os.environ.get("VERIF_REPO", "/repo"))
+    return "/var/tmp/pyunicorn-verif-alt-evidence-" + hashlib.sha1(tree.encode()).hexdigest()[:10]
+
+
 def prove(hyps, goal, timeout_s=60, tag=""):
     """is  /\\ hyps => goal  valid?  returns ('unsat'|'sat'|'unknown', model)"""
     from . import sx
@@ -226,7 +233,7 @@ def known_lookup(prop, signature):
 def write_replay(prop, signature, witness):
     d = os.path.join(VERIF, "replays")
     if os.path.realpath(REPO) != "/repo":
-        d = "/var/tmp/pyunicorn-verif-alt-evidence/replays"
+        d = os.path.join(alt_dir(), "replays")
     os.makedirs(d, exist_ok=True)
     safe = "".join(c if c.isalnum() or c in "-_." else "_" for c in signature)[:120]
     path = os.path.join(d, f"{safe}.json")
@@ -311,8 +318,8 @@ def write_evidence(prop, tier, results, wall, extra):
     path = os.path.join(VERIF, "evidence", f"{prop}.json")
     if os.path.realpath(REPO) != "/repo":
         # a run against a scratch tree (seeded change) must not overwrite the registered evidence
-        os.makedirs("/var/tmp/pyunicorn-verif-alt-evidence", exist_ok=True)
-        path = os.path.join("/var/tmp/pyunicorn-verif-alt-evidence", f"{prop}.json")
+        os.makedirs(alt_dir(), exist_ok=True)
+        path = os.path.join(alt_dir(), f"{prop}.json")
     with open(path, "w") as f:
         json.dump(jsonable(ev), f, indent=1)
     return path
